@@ -12,8 +12,11 @@ an int and the equal float count as the same number).
 Oracle (independent of the model): pass count within [1, iterations]; early stop
 => every formula cell of the target's cone changed by at most the tolerance in
 the last pass and lies within q/(1-q)*tolerance of the exact fixed point (rational
-Gaussian elimination); acyclic workbooks: the result equals what a fresh
-non-iterative compiler returns for the same workbook contents.
+Gaussian elimination); a contracting system of cell formulas whose cone was built
+by an earlier evaluate is, after p passes, within q^p of its distance to the fixed
+point before the call (the statement of C06_decay, on the implementation); acyclic
+workbooks: the result equals what a fresh non-iterative compiler returns for the
+same workbook contents.
 """
 import ast
 import hashlib
@@ -29,8 +32,10 @@ EXPLANATION = (
     "Model/Iter.v is hand-written (closures, threading.local state, openpyxl are outside the "
     "translated subset); the tie to the source is the differential run plus a fingerprint of the "
     "anchored functions' ASTs. C06_bounded, C06_tolerance, C06_contraction_step/_bound are proved for "
-    "all workbooks/systems; C06_acyclic_partial excludes range nodes and first use (both refuted: "
-    "Refuted/C06_acyclic.v).")
+    "all workbooks/systems; C06_pass_total/C06_fuel_sufficient: the fuel #cells+1 never runs out (any workbook); "
+    "C06_cone_pass/C06_decay/C06_exhausted/C06_converged: end-to-end bounds for contracting systems of cell "
+    "formulas from a built, quiescent cone (q^n decay; q/(1-q)(1+1e-5)tol after an early stop); "
+    "C06_acyclic_partial/_total exclude range nodes and first use (both refuted: Refuted/C06_acyclic.v).")
 
 COLS = 'ABC'
 NROWS = 3
